@@ -233,6 +233,9 @@ def check_program(head):
         if m.group(1) != base_end:
             bad.append(("program result differs when optimize is injected (%s)" % mode,
                         "uninterrupted %s interrupted %s" % (base_end, m.group(1))))
+        elif int(m.group(2)) != info["steps"]:
+            bad.append(("program takes a different number of steps when optimize is injected (%s)" % mode,
+                        "uninterrupted %d interrupted %s" % (info["steps"], m.group(2))))
         info[mode + "_calls"] = int(m.group(3))
     s = f["singles"]
     frac, first = s.split(":", 1)
@@ -841,7 +844,8 @@ def run(tier, seed):
         pass
     v.coverage["theorem_status"] = {
         "full (all stores, all cell kinds, conditional on Ok)": ["C19_clone", "C19_optimize", "C19_worklist_closed",
-                                                                 "C19_reader_sound", "C19_reader_complete"],
+                                                                 "C19_children_first", "C19_reader_sound",
+                                                                 "C19_reader_complete"],
         "refuted (witness by vm_compute, finding C19-K1)": ["C19_K1_refuted"],
         "examples (non-vacuity)": ["C19_ex_optimize", "C19_ex_hyps", "C19_ex_retained", "C19_ex_clone"],
         "stated, not proved": ["C19_success_statement (the calls succeed on well-formed stores outside C19-K1)",
